@@ -612,5 +612,350 @@ theorem name_call_effect (s : RealState) (hw : WF s.fs) (hl : LinkFree s.fs) (hf
       rw [hren]
       exact ⟨ea, rfl, hka, hmem⟩
 
+/-- the same call, with everything the next call needs: it succeeds when the source exists and the destination
+    does not; the new tree is well-formed and link-free, has the same directories, no fault is pending -/
+theorem name_call_step (s : RealState) (hw : WF s.fs) (hl : LinkFree s.fs) (hfault : s.faultAt = none)
+    (dir : APath) (src dst : PurePath) (hG : C05.NameCall s.fs dir src dst)
+    (hsrc : lexists s.fs (absKey dir src) = true) (hdst : lexists s.fs (absKey dir dst) = false) :
+    (fileRenamer s dir src dst false).2 = none ∧
+    (fileRenamer s dir src dst false).1.faultAt = none ∧ WF (fileRenamer s dir src dst false).1.fs ∧
+    LinkFree (fileRenamer s dir src dst false).1.fs ∧
+    (∀ p, isDirAt (fileRenamer s dir src dst false).1.fs p = isDirAt s.fs p) := by
+  have hG' := hG
+  obtain ⟨sp, n, m, rfl, rfl, hnm, hn, hm, hsp, hanc, hna, hnb⟩ := hG
+  have hab : dir ++ sp ++ [n] ≠ dir ++ sp ++ [m] := by
+    intro h; have := List.append_cancel_left h; simp at this; exact hnm this
+  have hplain : ∀ x : Name, x ≠ dotdot → ∀ c ∈ sp ++ [x], c ≠ dotdot := by
+    intro x hx c hc
+    rw [List.mem_append, List.mem_singleton] at hc
+    rcases hc with hc | hc
+    · exact hsp c hc
+    · rw [hc]; exact hx
+  have hwalk : ∀ x : Name, x ≠ dotdot → walkPath s.fs dir ⟨false, sp ++ [x]⟩ = .ok (dir ++ sp ++ [x]) := by
+    intro x hx
+    unfold walkPath
+    simp only [Bool.false_eq_true, if_false]
+    rw [walk_plain hl (sp ++ [x]) dir (hplain x hx)]
+    · simp
+    · intro k hk
+      have hk' : k ≤ sp.length := by simp at hk; omega
+      rw [C05.take_append_le sp x k hk']
+      exact hanc k hk'
+  have hkey : ∀ x : Name, x ≠ dotdot → absKey dir ⟨false, sp ++ [x]⟩ = dir ++ sp ++ [x] := by
+    intro x hx
+    unfold absKey
+    simp only [Bool.false_eq_true, if_false]
+    rw [lexNorm_plain _ _ (hplain x hx)]; simp
+  have hpar : parentOf ⟨false, sp ++ [n]⟩ = parentOf ⟨false, sp ++ [m]⟩ := by simp [parentOf]
+  rw [hkey n hn] at hsrc
+  rw [hkey m hm] at hdst
+  have ha0 : dir ++ sp ++ [n] ≠ [] := by simp
+  have hlex : lexistsRel s.fs dir ⟨false, sp ++ [m]⟩ = false := by
+    unfold lexistsRel; rw [hwalk m hm]; exact hdst
+  obtain ⟨ea, hfa⟩ : ∃ ea, s.fs.find (dir ++ sp ++ [n]) = some ea := by
+    unfold lexists at hsrc
+    rw [if_neg ha0] at hsrc
+    cases h : s.fs.find (dir ++ sp ++ [n]) with
+    | none => rw [h] at hsrc; simp at hsrc
+    | some ea => exact ⟨ea, rfl⟩
+  have hka : ea.kind ≠ .dir := by
+    intro hk
+    unfold isDirAt at hna
+    rw [if_neg ha0, hfa] at hna
+    simp [hk] at hna
+  have hpd : isDirAt s.fs (dir ++ sp ++ [m]).dropLast = true := by
+    rw [List.dropLast_concat]
+    have := hanc sp.length (Nat.le_refl _)
+    simpa using this
+  obtain ⟨fs', hren, hw', hmem⟩ := renameAbs_leaf hw hfa hka hab (by simp) hpd hnb
+  have hcall : fileRenamer s dir ⟨false, sp ++ [n]⟩ ⟨false, sp ++ [m]⟩ false =
+      ({ s with fs := fs', log := s.log ++ [.rename (dir ++ sp ++ [n]) (dir ++ sp ++ [m])], hist := s.hist ++ [fs'] }, none) := by
+    unfold fileRenamer
+    rw [hlex]
+    simp only [Bool.not_false, Bool.and_false, Bool.false_eq_true, if_false]
+    rw [if_neg (by simpa using hpar)]
+    unfold renameRel
+    rw [hwalk n hn, hwalk m hm]
+    simp only
+    unfold RealState.prim
+    simp only [hfault]
+    rw [if_neg (by simp)]
+    simp only [hren]
+  rw [hcall]
+  have hamem := find_some_mem hfa
+  refine ⟨rfl, hfault, hw', ?_, ?_⟩
+  · intro e he t
+    rcases (hmem e).mp he with rfl | ⟨he, _, _⟩
+    · exact hl ea hamem.1 t
+    · exact hl e he t
+  · intro p
+    show isDirAt fs' p = isDirAt s.fs p
+    rw [Bool.eq_iff_iff, isDirAt_iff hw'.1, isDirAt_iff hw.1]
+    constructor
+    · rintro (h | ⟨d, hd, hdp, hdk⟩)
+      · exact Or.inl h
+      · rcases (hmem d).mp hd with rfl | ⟨hd, _, _⟩
+        · exact absurd hdk hka
+        · exact Or.inr ⟨d, hd, hdp, hdk⟩
+    · rintro (h | ⟨d, hd, hdp, hdk⟩)
+      · exact Or.inl h
+      · right
+        refine ⟨d, (hmem d).mpr (Or.inr ⟨hd, ?_, ?_⟩), hdp, hdk⟩
+        · intro h
+          have := nodup_find hw.1 hd
+          rw [h, hfa] at this
+          rw [← Option.some.inj this] at hdk
+          exact hka hdk
+        · intro h
+          have : isDirAt s.fs (dir ++ sp ++ [m]) = true := (isDirAt_iff hw.1 _).mpr (Or.inr ⟨d, hd, h, hdk⟩)
+          rw [hnb] at this; exact absurd this (by decide)
+
+/-! ### the plan applied to the initial tree -/
+
+/-- where the first `k` files of the plan send the path `p`: to the generated destination if `p` is the path of
+    one of them (and its generated name differs), else nowhere -/
+def MovedTo (all : List FileRec) (gen : Nat → Gen) (k : Nat) (p q : APath) : Prop :=
+  (∃ (j : Nat) (f : FileRec) (pj : PurePath), j < k ∧ all[j]? = some f ∧ gen j = .path pj ∧ pj ≠ f.rel ∧
+      p = absKey f.inputDir f.rel ∧ q = absKey f.inputDir pj) ∨
+  ((∀ (j : Nat) (f : FileRec) (pj : PurePath), j < k → all[j]? = some f → gen j = .path pj → pj ≠ f.rel →
+      p ≠ absKey f.inputDir f.rel) ∧ q = p)
+
+/-- the real tree after the first `k` files of a free plan: the initial entries, each with its identity, kind and
+    content, at the path the plan sends it to -/
+def RealInv (base : FS) (all : List FileRec) (gen : Nat → Gen) (k : Nat) (s : RealState) : Prop :=
+  s.faultAt = none ∧ WF s.fs ∧ LinkFree s.fs ∧ (∀ p, isDirAt s.fs p = isDirAt base p) ∧
+  (∀ e', e' ∈ s.fs ↔ ∃ e ∈ base, ∃ q, MovedTo all gen k e.path q ∧ e' = { e with path := q })
+
+theorem nameCall_transfer {base fs : FS} (hd : ∀ p, isDirAt fs p = isDirAt base p) {dir : APath} {src dst : PurePath}
+    (hG : C05.NameCall base dir src dst) : C05.NameCall fs dir src dst := by
+  obtain ⟨sp, n, m, h1, h2, h3, h4, h5, h6, h7, h8, h9⟩ := hG
+  exact ⟨sp, n, m, h1, h2, h3, h4, h5, h6, fun k hk => by rw [hd]; exact h7 k hk, by rw [hd]; exact h8, by rw [hd]; exact h9⟩
+
+theorem real_firstPass_free (base : FS) (hwb : WF base) (all : List FileRec) (gen : Nat → Gen)
+    (hfree : FreePlan base all gen) :
+    ∀ (rest : List FileRec) (i : Nat) (r : Run RealState), all.drop i = rest → RealInv base all gen i r.st →
+      ∃ r', firstPass realNameRenamer gen i rest r [] = (r', [], none) ∧ RealInv base all gen (i + rest.length) r'.st := by
+  intro rest
+  induction rest with
+  | nil => intro i r _ h; exact ⟨r, by simp [firstPass], by simpa using h⟩
+  | cons f rest ih =>
+    intro i r hdrop hinv
+    have hfi : all[i]? = some f := by
+      have := congrArg (fun l => l[0]?) hdrop
+      simpa using this
+    have hdrop' : all.drop (i + 1) = rest := by
+      have := congrArg (fun l => l.drop 1) hdrop
+      simpa [List.drop_drop, Nat.add_comm] using this
+    have hlen : i + (f :: rest).length = (i + 1) + rest.length := by simp; omega
+    rw [hlen]
+    obtain ⟨p, hgp, hcase⟩ := hfree.gens i f hfi
+    obtain ⟨hfault, hw, hl, hdirs, hmem⟩ := hinv
+    rw [firstPass]
+    simp only [hgp]
+    rcases hcase with hsame | ⟨hG, hfreeDst⟩
+    · -- the generated path is the file's own: nothing happens, and `MovedTo` does not change
+      simp only [hsame, if_true]
+      apply ih (i + 1) r hdrop'
+      refine ⟨hfault, hw, hl, hdirs, ?_⟩
+      intro e'
+      rw [hmem e']
+      have hiff : ∀ a q, MovedTo all gen i a q ↔ MovedTo all gen (i + 1) a q := by
+        intro a q
+        constructor
+        · rintro (⟨j, fj, pj, hj, h⟩ | ⟨hno, hq⟩)
+          · exact Or.inl ⟨j, fj, pj, by omega, h⟩
+          · refine Or.inr ⟨?_, hq⟩
+            intro j fj pj hj hfj hgj hne
+            by_cases hji : j = i
+            · subst hji
+              rw [hfi] at hfj
+              have : f = fj := Option.some.inj hfj
+              subst this
+              rw [hgp] at hgj
+              have : p = pj := by injection hgj
+              subst this
+              exact absurd hsame hne
+            · exact hno j fj pj (by omega) hfj hgj hne
+        · rintro (⟨j, fj, pj, hj, hfj, hgj, hne, h⟩ | ⟨hno, hq⟩)
+          · by_cases hji : j = i
+            · subst hji
+              rw [hfi] at hfj
+              have : f = fj := Option.some.inj hfj
+              subst this
+              rw [hgp] at hgj
+              have : p = pj := by injection hgj
+              subst this
+              exact absurd hsame hne
+            · exact Or.inl ⟨j, fj, pj, by omega, hfj, hgj, hne, h⟩
+          · exact Or.inr ⟨fun j fj pj hj => hno j fj pj (by omega), hq⟩
+      constructor
+      · rintro ⟨e, he, q, hm, rfl⟩; exact ⟨e, he, q, (hiff _ _).mp hm, rfl⟩
+      · rintro ⟨e, he, q, hm, rfl⟩; exact ⟨e, he, q, (hiff _ _).mpr hm, rfl⟩
+    · -- a real rename
+      have hGs := nameCall_transfer hdirs hG
+      obtain ⟨hcont, hne⟩ := nameCall_contained r.st.fs hl f.inputDir f.rel p hGs
+      simp only [hne, if_false]
+      have hview : realNameRenamer.view r.st = r.st.fs := rfl
+      rw [hview, hcont]
+      simp only
+      obtain ⟨hkne, _⟩ := C05.dry_name_call base { base := base } f.inputDir f.rel p false hG
+      -- the source exists, the destination does not
+      have hsrc : lexists r.st.fs (absKey f.inputDir f.rel) = true := by
+        rcases (lexists_iff _).mp (hfree.srcs i f hfi) with h0 | ⟨e0, he0, hp0⟩
+        · rw [h0]; rfl
+        · apply (lexists_iff _).mpr
+          right
+          refine ⟨{ e0 with path := absKey f.inputDir f.rel }, (hmem _).mpr ⟨e0, he0, _, Or.inr ⟨?_, hp0.symm ▸ rfl⟩, rfl⟩, rfl⟩
+          intro j fj pj hj hfj _ _ heq
+          rw [hp0] at heq
+          exact hfree.srcDistinct j i fj f hj hfj hfi heq.symm
+      have hdst : lexists r.st.fs (absKey f.inputDir p) = false := by
+        rw [Bool.eq_false_iff]
+        intro hex
+        rcases (lexists_iff _).mp hex with h0 | ⟨e', he', hp'⟩
+        · rw [h0] at hfreeDst; simp [lexists] at hfreeDst
+        · obtain ⟨e0, he0, q, hm, rfl⟩ := (hmem e').mp he'
+          simp only at hp'
+          rcases hm with ⟨j, fj, pj, hj, hfj, hgj, hnej, _, hq⟩ | ⟨_, hq⟩
+          · rw [hq] at hp'
+            exact hfree.dstDistinct j i fj f pj p hj hfj hfi hgj hgp hnej hne hp'
+          · rw [hq] at hp'
+            have : lexists base (absKey f.inputDir p) = true := (lexists_iff _).mpr (Or.inr ⟨e0, he0, hp'⟩)
+            rw [hfreeDst] at this; exact absurd this (by decide)
+      obtain ⟨hok, hfault', hw', hl', hdirs'⟩ := name_call_step r.st hw hl hfault f.inputDir f.rel p hGs hsrc hdst
+      obtain ⟨ea, hfa, hka, hmem'⟩ := name_call_effect r.st hw hl hfault f.inputDir f.rel p false hGs hok
+      -- the pipeline records the rename and goes on
+      have hcallr : ∃ r1 : Run RealState, r.call realNameRenamer f.inputDir f.rel p false = (r1, none) ∧
+          r1.st = (fileRenamer r.st f.inputDir f.rel p false).1 := by
+        unfold Run.call
+        have hc : realNameRenamer.call r.st f.inputDir f.rel p false =
+            ((fileRenamer r.st f.inputDir f.rel p false).1, none) := by
+          show fileRenamer r.st f.inputDir f.rel p false = _
+          rw [← hok]
+        simp only [hc]
+        exact ⟨_, rfl, rfl⟩
+      obtain ⟨r1, hr1, hr1st⟩ := hcallr
+      rw [hr1]
+      simp only
+      apply ih (i + 1) r1 hdrop'
+      rw [hr1st]
+      refine ⟨hfault', hw', hl', fun q => by rw [hdirs', hdirs], ?_⟩
+      have hamem := find_some_mem hfa
+      -- the entry found at the source path is an initial entry that has not moved
+      obtain ⟨e0, he0, q0, hm0, hea⟩ := (hmem ea).mp hamem.1
+      have hq0 : q0 = absKey f.inputDir f.rel := by
+        have := hamem.2
+        rw [hea] at this
+        simpa using this
+      have he0path : e0.path = absKey f.inputDir f.rel := by
+        rcases hm0 with ⟨j, fj, pj, hj, hfj, hgj, hnej, _, hq⟩ | ⟨_, hq⟩
+        · -- an earlier destination equal to this (existing) source: impossible for a free plan
+          exfalso
+          obtain ⟨pj', hgj', hcj⟩ := hfree.gens j fj hfj
+          rw [hgj] at hgj'
+          have : pj = pj' := by injection hgj'
+          subst this
+          rcases hcj with hcj | ⟨_, hfj'⟩
+          · exact hnej hcj
+          · rw [← hq, hq0, hfree.srcs i f hfi] at hfj'
+            exact absurd hfj' (by decide)
+        · rw [← hq]; exact hq0
+      have hea' : ea = e0 := by
+        rw [hea, hq0, ← he0path]
+      intro e'
+      rw [hmem' e']
+      constructor
+      · rintro (rfl | ⟨he', hna, hnb⟩)
+        · refine ⟨e0, he0, absKey f.inputDir p, Or.inl ⟨i, f, p, by omega, hfi, hgp, hne, he0path, rfl⟩, ?_⟩
+          rw [hea']
+        · obtain ⟨e1, he1, q1, hm1, rfl⟩ := (hmem e').mp he'
+          simp only at hna hnb
+          refine ⟨e1, he1, q1, ?_, rfl⟩
+          rcases hm1 with ⟨j, fj, pj, hj, h⟩ | ⟨hno, hq⟩
+          · exact Or.inl ⟨j, fj, pj, by omega, h⟩
+          · refine Or.inr ⟨?_, hq⟩
+            intro j fj pj hj hfj hgj hnej
+            by_cases hji : j = i
+            · subst hji
+              rw [hfi] at hfj
+              have : f = fj := Option.some.inj hfj
+              subst this
+              rw [← hq]; exact hna
+            · exact hno j fj pj (by omega) hfj hgj hnej
+      · rintro ⟨e1, he1, q1, hm1, rfl⟩
+        rcases hm1 with ⟨j, fj, pj, hj, hfj, hgj, hnej, hpj, hqj⟩ | ⟨hno, hq⟩
+        · by_cases hji : j = i
+          · -- the file just renamed
+            subst hji
+            rw [hfi] at hfj
+            have : f = fj := Option.some.inj hfj
+            subst this
+            rw [hgp] at hgj
+            have : p = pj := by injection hgj
+            subst this
+            left
+            have : e1 = e0 := by
+              have h1 := nodup_find hwb.1 he1
+              have h0 := nodup_find hwb.1 he0
+              rw [hpj, ← he0path, h0] at h1
+              exact (Option.some.inj h1).symm
+            rw [hqj, this, hea']
+          · -- moved earlier
+            right
+            refine ⟨(hmem _).mpr ⟨e1, he1, q1, Or.inl ⟨j, fj, pj, by omega, hfj, hgj, hnej, hpj, hqj⟩, rfl⟩, ?_, ?_⟩
+            · simp only
+              rw [hqj]
+              intro heq
+              -- an earlier destination equals the current source: the source would not exist initially
+              obtain ⟨pj', hgj', hcj⟩ := hfree.gens j fj hfj
+              rw [hgj] at hgj'
+              have : pj = pj' := by injection hgj'
+              subst this
+              rcases hcj with hcj | ⟨_, hfj'⟩
+              · exact hnej hcj
+              · rw [heq, hfree.srcs i f hfi] at hfj'
+                exact absurd hfj' (by decide)
+            · simp only
+              rw [hqj]
+              exact fun heq => hfree.dstDistinct j i fj f pj p (by omega) hfj hfi hgj hgp hnej hne heq
+        · -- not moved
+          right
+          have hnotsrc : e1.path ≠ absKey f.inputDir f.rel := hno i f p (by omega) hfi hgp hne
+          refine ⟨(hmem _).mpr ⟨e1, he1, q1, Or.inr ⟨fun j fj pj hj => hno j fj pj (by omega), hq⟩, rfl⟩, ?_, ?_⟩
+          · simp only; rw [hq]; exact hnotsrc
+          · simp only; rw [hq]
+            intro heq
+            have : lexists base (absKey f.inputDir p) = true := (lexists_iff _).mpr (Or.inr ⟨e1, he1, heq⟩)
+            rw [hfreeDst] at this; exact absurd this (by decide)
+
+/-- **C02 (the plan applied, name mode)**: on a well-formed link-free tree, the real run of a free plan — any
+    file list, processing order, strategy — ends successfully, and the final tree consists exactly of the
+    initial entries, each with its identity, kind and content, the selected ones at the paths generated for
+    them and every other one where it was.  Nothing is added, nothing is lost, nothing else moves. -/
+theorem free_plan_applied_name_mode (base : FS) (hw : WF base) (hl : LinkFree base)
+    (files : List FileRec) (gen : Nat → Gen) (strategy : Strategy) (answers : List Answer)
+    (hfree : FreePlan base files gen) :
+    (execute realNameRenamer { fs := base } files gen strategy answers).2 = .done ∧
+    ∀ e', e' ∈ (execute realNameRenamer { fs := base } files gen strategy answers).1.st.fs ↔
+      ∃ e ∈ base, ∃ q, MovedTo files gen files.length e.path q ∧ e' = { e with path := q } := by
+  have hinv0 : RealInv base files gen 0 ({ fs := base } : RealState) := by
+    refine ⟨rfl, hw, hl, fun _ => rfl, ?_⟩
+    intro e'
+    constructor
+    · intro he'
+      exact ⟨e', he', e'.path, Or.inr ⟨fun j _ _ hj => absurd hj (Nat.not_lt_zero j), rfl⟩, rfl⟩
+    · rintro ⟨e, he, q, hm, rfl⟩
+      rcases hm with ⟨j, _, _, hj, _⟩ | ⟨_, hq⟩
+      · exact absurd hj (Nat.not_lt_zero j)
+      · rw [hq]; exact he
+  obtain ⟨r', h1, hinv⟩ := real_firstPass_free base hw files gen hfree files 0 { st := { fs := base } } (by simp) hinv0
+  have hex : execute realNameRenamer { fs := base } files gen strategy answers = (r', .done) := by
+    unfold execute
+    rw [h1]
+    simp [secondPass]
+  rw [hex]
+  simp only [Nat.zero_add] at hinv
+  exact ⟨rfl, hinv.2.2.2.2⟩
+
 end C02
 end Tempren
